@@ -266,6 +266,9 @@ def replace2 (a b r : Char) : Str → Str
 /-- `value.replace("~1", "/").replace("~0", "~")` -/
 def unescape (s : Str) : Str := replace2 '~' '0' '~' (replace2 '~' '1' '/' s)
 
+/-- the two replacements in the other order (`.replace("~0", "~").replace("~1", "/")`): not RFC 6901 decoding -/
+def unescapeSwapped (s : Str) : Str := replace2 '~' '1' '/' (replace2 '~' '0' '~' s)
+
 /-- characters CPython's `int(str)` strips as whitespace -/
 def isPyWs (c : Char) : Bool :=
   let n := c.toNat
